@@ -69,6 +69,7 @@ func NewWithOptions(opts *Options) *OrefaFS {
 	vfs.nodes = make(nodes)
 	vfs.nodes[volumeName] = &node{
 		mode:  fs.ModeDir | 0o755,
+		dir:   true,
 		mtime: time.Now().UnixNano(),
 		uid:   0,
 		gid:   0,
